@@ -43,6 +43,14 @@ def mk_lines(kind: str, text: str, n: int) -> Tuple[Any, bool]:
         return {"jsonrpc": "2.0", "id": n, "method": "roots/list", "params": {"t": text}}, False
     if kind == "resp":
         return {"jsonrpc": "2.0", "id": f"r{n}", "result": {"content": [{"type": "text", "text": text}], "n": None}}, False
+    if kind == "resp_id0":
+        return {"jsonrpc": "2.0", "id": 0, "result": {"t": text}}, False
+    if kind == "resp_idempty":
+        return {"jsonrpc": "2.0", "id": "", "result": {"t": text}}, False
+    if kind == "err_id0":
+        return {"jsonrpc": "2.0", "id": 0, "error": {"code": -32000, "message": text}}, False
+    if kind == "req_idneg":
+        return {"jsonrpc": "2.0", "id": -1, "method": "ping"}, False
     if kind == "resp_arr":
         return {"jsonrpc": "2.0", "id": f"r{n}", "result": [text, None, 1]}, False
     if kind == "resp_str":
@@ -86,7 +94,7 @@ def mk_lines(kind: str, text: str, n: int) -> Tuple[Any, bool]:
 
 
 MSG_KINDS = ["note", "req", "resp", "err", "key", "batch", "resp_arr", "resp_str", "resp_num", "resp_empty", "err_data",
-             "req_noparams", "note_noparams"]
+             "req_noparams", "note_noparams", "resp_id0", "resp_idempty", "err_id0", "req_idneg"]
 JUNK_KINDS = ["junk_text", "junk_brace", "junk_scalar", "junk_string", "junk_null", "junk_obj", "junk_noresult",
               "junk_both", "junk_badutf8", "junk_badutf8_2", "junk_empty", "junk_spaces", "lenient_v1", "junk_trunc_utf8",
               "junk_nullid_result"]
@@ -156,6 +164,9 @@ def stream_specs(ctx) -> List[List[Tuple[str, str, str, bool]]]:
                   ("junk_nullid_result", "", "LF", False), ("resp_num", "n", "LF", False), ("resp_empty", "", "LF", False)])
     specs.append([("resp_num", "n", "LF", False), ("resp", "a", "LF", False), ("err_data", "e", "LF", False), ("err", "e2", "LF", False),
                   ("req_noparams", "", "LF", False), ("req", "p", "LF", False), ("note_noparams", "", "LF", False), ("note", "x", "LF", False)])
+    # falsy and negative ids
+    specs.append([("resp_id0", "z", "LF", False), ("resp_idempty", "e", "CRLF", False), ("err_id0", "\u00e9", "LF", False),
+                  ("req_idneg", "", "LF", False), ("note", "after", "LF", False)])
     n = 12 if ctx.tier == "quick" else 150
     for _ in range(n):
         L = rng.randint(1, 6)
